@@ -2,7 +2,9 @@
 import ckprop
 import genck
 import implck
-from ckprop import run_impl, model_view, shrink_candidates  # noqa: F401
+import copy
+
+import ckprop as _ckp
 
 DESCRIPTION = ("Lean: Props/C16.lean (phase order of the trace, list order inside a phase, early stops). Tie: the full "
                "ordered site log of real calls equals the model's. Oracle: the expected order is recomputed in the harness "
@@ -23,6 +25,52 @@ def cases(tier, rng):
         yield "exh", c
     for _ in range(40000 if thorough else 5000):
         yield "rnd", genck.random_case(rng, ans_weights=AW, raising_errors=True, max_posts=3)
+    for tc in seq_cases(tier, rng):
+        yield tc
+
+
+def seq_cases(tier, rng):
+    """several calls on the SAME decorated callable (a method with inherited, weakened preconditions) under different truth
+    assignments: the order of evaluation and the reported condition of a call do not depend on the calls before it"""
+    thorough = tier == "thorough"
+    n = 0
+    while n < (6000 if thorough else 700):
+        c = genck.random_case(rng, kinds=["method", "class", "static", "propset"], ans_weights={"T": 5, "F": 5}, max_posts=1)
+        if sum(1 for lv in c["levels"] if lv["pre"]) < 2:
+            continue
+        n += 1
+        steps = [c]
+        ids = [x["id"] for lv in c["levels"] for x in lv["pre"] + lv["posts"]]
+        for _ in range(rng.randint(2, 4)):
+            c2 = copy.deepcopy(c)
+            c2["cond"] = [[k, (genck.T(100 + k) if rng.random() < 0.5 else genck.F(100 + k)) if k in ids else a] for k, a in c["cond"]]
+            steps.append(c2)
+        yield "seq", {"dom": "checker-sequence", "seq": steps}
+
+
+def driver_inputs(case):
+    return case["seq"] if "seq" in case else [case]
+
+
+def run_impl(case):
+    if "seq" in case:
+        return {"steps": implck.run_seq(case["seq"])}
+    return _ckp.run_impl(case)
+
+
+def model_view(case, mos):
+    if "seq" in case:
+        return {"steps": [_ckp.model_view(c, mo) for c, mo in zip(case["seq"], mos)]}
+    return _ckp.model_view(case, mos[0])
+
+
+def shrink_candidates(case):
+    if "seq" in case:
+        for i in range(1, len(case["seq"])):
+            yield {"dom": "checker-sequence", "seq": case["seq"][:i] + case["seq"][i + 1:]}
+        return
+    for c in _ckp.shrink_candidates(case):
+        yield c
 
 
 def search_cases(rng, hint, n):
@@ -32,6 +80,12 @@ def search_cases(rng, hint, n):
 
 
 def project(case, obs):
+    if "seq" in case:
+        return [_project1(o) for o in obs["steps"]]
+    return _project1(obs)
+
+
+def _project1(obs):
     if obs.get("define", ["ok"]) != ["ok"]:
         return ["define-failed"]
     return [obs["trace"], implck.loosen(obs["out"])]
@@ -41,7 +95,20 @@ def _plain(a):
     return ckprop.ans_kind(a) == "val" and a["val"]["t"] in ("truthy", "falsy")
 
 
-def spec(case, mo, io):
+def spec(case, mos, io):
+    if "seq" in case:
+        fails = []
+        for k, (c, mo, o) in enumerate(zip(case["seq"], mos, io["steps"])):
+            for f in _spec1(c, mo, o):
+                fails.append("call %d of the sequence: %s" % (k, f))
+            if _project1(o) != _project1(_ckp.model_view(c, mo)):
+                fails.append("call %d of the sequence: evaluations %s, a first call with the same answers gives %s"
+                             % (k, _project1(o), _project1(_ckp.model_view(c, mo))))
+        return fails
+    return _spec1(case, mos[0], io)
+
+
+def _spec1(case, mo, io):
     if io.get("define", ["ok"]) != ["ok"]:
         return ["definition raised %s" % (io["define"],)]
     sp = mo["spec"]
@@ -101,11 +168,13 @@ def spec(case, mo, io):
     return fails
 
 
-def classify(case, mo, io, fails):
+def classify(case, mos, io, fails):
     return "unclassified"
 
 
-def nontrivial_key(case, mo):
+def nontrivial_key(case, mos):
+    if "seq" in case:
+        return repr([ckprop.shape_key(c) for c in case["seq"]])
     n = sum(len(l["pre"]) + len(l["posts"]) for l in case["levels"])
     nf = sum(1 for _c, a in case["cond"] if ckprop.ans_kind(a) == "val" and a["val"]["t"] == "falsy")
     if n < 2 or nf < 1:
@@ -113,7 +182,10 @@ def nontrivial_key(case, mo):
     return ckprop.shape_key(case)
 
 
-def stats(case, mo, io, dist):
+def stats(case, mos, io, dist):
+    if "seq" in case:
+        dist["sequence_len:%d" % len(case["seq"])] += 1
+        return
     dist["kind:" + case["kind"]] += 1
     dist["async" if case["async"] else "sync"] += 1
     nf = sum(1 for _c, a in case["cond"] if ckprop.ans_kind(a) == "val" and a["val"]["t"] == "falsy")
